@@ -6,14 +6,16 @@ the source by the translator (`Generated/TimeArrayMech.lean`): does `__getitem__
 `_jd*_sliced` side channel once it has been handed over?
 -/
 import Midgard.Model.TimeArrayHist
+import Midgard.Proofs.TimeArrayLists
 import Midgard.Generated.TimeArrayMech
 import Mathlib.Tactic.SplitIfs
 import Mathlib.Tactic.Common
 
 set_option linter.unusedVariables false
+set_option linter.unnecessarySeqFocus false
 
 namespace Midgard.Props.C04
-open Midgard.TimeArrayHist
+open Midgard.TimeArrayHist Midgard.Proofs.TimeArrayLists
 
 /-- the array is element-aligned and carries no left-over side channel -/
 def Good (a : Arr) : Prop := a.pending = none ∧ a.vals = a.jd1 ∧ a.jd1 = a.jd2
@@ -25,6 +27,7 @@ def Out.aligned : Out → Prop
   | .arr o => o.aligned
   | .many os => ∀ o ∈ os, o.aligned
   | .error => True
+  | .plain _ => True
 
 /-! ### The source has the repaired mechanism -/
 
@@ -100,7 +103,7 @@ theorem iter_good {h : Heap} (hh : HInv h) (t : Nat) (ks : List Nat) (acc : List
 /-- **Invariant step**: with the repaired mechanism every operation keeps every array of the heap
 aligned and free of left-over side channel, and what it returns is aligned. -/
 theorem inv_step {h : Heap} (hh : HInv h) (op : Op) :
-    HInv (step true h op).1 ∧ Out.aligned (step true h op).2 := by
+    HInv (step true h op).heap ∧ Out.aligned (step true h op).out := by
   cases op with
   | getInt t i =>
     obtain ⟨h1, h2⟩ := getInt_good hh t i
@@ -174,13 +177,16 @@ theorem inv_step {h : Heap} (hh : HInv h) (op : Op) :
           cases insertAt pos a.jd1 b.jd1 with
           | none => exact ⟨hh, trivial⟩
           | some v => exact ⟨hinv_append hh ⟨rfl, rfl, rfl⟩, ⟨rfl, rfl⟩⟩
-  | scale t =>
+  | scale t target =>
     simp only [step]
     cases ha : h[t]? with
     | none => exact ⟨hh, trivial⟩
     | some a =>
       obtain ⟨hp, hv, hj⟩ := good_of_getElem? hh ha
-      exact ⟨hinv_append hh ⟨rfl, rfl, hj⟩, ⟨rfl, hj⟩⟩
+      simp only
+      split_ifs
+      · exact ⟨hinv_append hh ⟨hp, hv, hj⟩, ⟨hv, hj⟩⟩
+      · exact ⟨hinv_append hh ⟨rfl, rfl, hj⟩, ⟨rfl, hj⟩⟩
   | iter t =>
     simp only [step]
     cases ha : h[t]? with
@@ -192,13 +198,42 @@ theorem inv_step {h : Heap} (hh : HInv h) (op : Op) :
       · have := iter_good hh t (List.range a.jd1.length) [] (by simp)
         exact this
   | set t => exact ⟨hh, trivial⟩
+  | getBad t f =>
+    simp only [step]
+    cases ha : h[t]? with
+    | none => exact ⟨hh, trivial⟩
+    | some a =>
+      obtain ⟨hp, hv, hj⟩ := good_of_getElem? hh ha
+      simp only
+      split_ifs
+      · exact ⟨hh, trivial⟩
+      · cases f.positions a.jd1.length with
+        | none => exact ⟨hh, trivial⟩
+        | some pj => exact ⟨hinv_set hh ⟨by simp [afterGet], hv, hj⟩, trivial⟩
+  | same t =>
+    simp only [step]
+    cases ha : h[t]? with
+    | none => exact ⟨hh, trivial⟩
+    | some a =>
+      obtain ⟨hp, hv, hj⟩ := good_of_getElem? hh ha
+      exact ⟨hinv_append hh ⟨hp, hv, hj⟩, ⟨hv, hj⟩⟩
+  | refused t f =>
+    simp only [step]
+    cases ha : h[t]? with
+    | none => exact ⟨hh, trivial⟩
+    | some a => exact ⟨hh, trivial⟩
+  | concat ts ap =>
+    simp only [step]
+    cases ts.mapM (h[·]?) with
+    | none => exact ⟨hh, trivial⟩
+    | some as => exact ⟨hh, trivial⟩
 
 /-! ### Every reachable state, every operation sequence -/
 
 /-- **Invariant for all histories**: starting from freshly constructed arrays, after any
 sequence of operations every array in existence is aligned, and every value ever returned was. -/
 theorem inv_run {h : Heap} (hh : HInv h) (ops : List Op) :
-    HInv (run true h ops).1 ∧ ∀ o ∈ (run true h ops).2, Out.aligned o := by
+    HInv (run true h ops).heap ∧ ∀ o ∈ (run true h ops).outs, Out.aligned o := by
   induction ops generalizing h with
   | nil => exact ⟨hh, by simp [run]⟩
   | cons op ops ih =>
@@ -224,14 +259,14 @@ theorem inv_init (specs : List (Nat × Nat)) : HInv (specs.map fun s => fresh s.
 positions `sel` denotes for that length, and the length is the number of selected epochs -/
 theorem getSel_is_index {h : Heap} (hh : HInv h) (t : Nat) (s : Sel) (a : Arr) (ha : h[t]? = some a)
     (hs : a.scalar = false) (ps : List Nat) (hps : s.positions a.vals.length = some ps) :
-    (step true h (.getSel t s)).2 = .arr ⟨pick a.vals ps, pick a.jd1 ps, pick a.jd2 ps, false⟩ := by
+    (step true h (.getSel t s)).out = .arr ⟨pick a.vals ps, pick a.jd1 ps, pick a.jd2 ps, false, a.cls, a.fmt⟩ := by
   obtain ⟨hp, hv, hj⟩ := good_of_getElem? hh ha
   have hps' : s.positions a.jd1.length = some ps := by rw [← hv]; exact hps
   simp [step, ha, hs, hps, hps', finalize, Arr.obs]
 
 theorem subset_is_index {h : Heap} (hh : HInv h) (t : Nat) (s : Sel) (a : Arr) (ha : h[t]? = some a)
     (hs : a.scalar = false) (ps : List Nat) (hps : s.positions a.vals.length = some ps) :
-    (step true h (.subset t s)).2 = .arr ⟨pick a.vals ps, pick a.jd1 ps, pick a.jd2 ps, false⟩ := by
+    (step true h (.subset t s)).out = .arr ⟨pick a.vals ps, pick a.jd1 ps, pick a.jd2 ps, false, a.cls, a.fmt⟩ := by
   obtain ⟨hp, hv, hj⟩ := good_of_getElem? hh ha
   have hps' : s.positions a.jd1.length = some ps := by rw [← hv]; exact hps
   simp [step, ha, hs, hps, hps', Arr.obs]
@@ -239,12 +274,12 @@ theorem subset_is_index {h : Heap} (hh : HInv h) (t : Nat) (s : Sel) (a : Arr) (
 /-- `t[i]` returns the single epoch at position `i` (Python index rules) -/
 theorem getInt_is_index {h : Heap} (hh : HInv h) (t : Nat) (i : Int) (a : Arr) (ha : h[t]? = some a)
     (hs : a.scalar = false) (k : Nat) (hk : normIdx a.jd1.length i = some k) :
-    (step true h (.getInt t i)).2 = .arr ⟨pick a.jd1 [k], pick a.jd1 [k], pick a.jd2 [k], true⟩ := by
+    (step true h (.getInt t i)).out = .arr ⟨pick a.jd1 [k], pick a.jd1 [k], pick a.jd2 [k], true, a.cls, a.fmt⟩ := by
   simp [step, getIntStep, ha, hs, hk, Arr.obs]
 
 /-- views and copies observe exactly the parent's three lists -/
 theorem view_copy_same {h : Heap} (hh : HInv h) (t : Nat) (a : Arr) (ha : h[t]? = some a) :
-    (step true h (.view t)).2 = .arr a.obs ∧ (step true h (.copy t)).2 = .arr a.obs := by
+    (step true h (.view t)).out = .arr a.obs ∧ (step true h (.copy t)).out = .arr a.obs := by
   obtain ⟨hp, _, _⟩ := good_of_getElem? hh ha
   simp [step, ha, finalize, hp, Arr.obs]
 
@@ -252,7 +287,7 @@ theorem view_copy_same {h : Heap} (hh : HInv h) (t : Nat) (a : Arr) (ha : h[t]? 
 `jd1` and `jd2` -/
 theorem insert_is_splice {h : Heap} (hh : HInv h) (ta tb : Nat) (pos : Int) (a b : Arr) (ha : h[ta]? = some a)
     (hb : h[tb]? = some b) (hs : a.scalar = false) (l : List Nat) (hl : insertAt pos a.vals b.vals = some l) :
-    (step true h (.insert ta pos tb)).2 = .arr ⟨l, l, l, false⟩ := by
+    (step true h (.insert ta pos tb)).out = .arr ⟨l, l, l, false, a.cls, a.fmt⟩ := by
   obtain ⟨_, hv, hj⟩ := good_of_getElem? hh ha
   obtain ⟨_, hv', hj'⟩ := good_of_getElem? hh hb
   have h1 : insertAt pos a.jd1 b.jd1 = some l := by rw [← hv, ← hv']; exact hl
@@ -272,7 +307,7 @@ theorem set_self {α} (l : List α) (i : Nat) (x : α) (h : l[i]? = some x) : l.
 /-- one integer read on a good heap leaves the heap as it was and returns the single epoch -/
 theorem getIntStep_good {h : Heap} (hh : HInv h) (t : Nat) (a : Arr) (ha : h[t]? = some a) (hs : a.scalar = false)
     (k : Nat) (hk : k < a.jd1.length) :
-    getIntStep true h t (k : Int) = (h, some { vals := pick a.jd1 [k], jd1 := pick a.jd1 [k], jd2 := pick a.jd2 [k], scalar := true }) := by
+    getIntStep true h t (k : Int) = (h, some { vals := pick a.jd1 [k], jd1 := pick a.jd1 [k], jd2 := pick a.jd2 [k], scalar := true, cls := a.cls, fmt := a.fmt }) := by
   obtain ⟨hp, _, _⟩ := good_of_getElem? hh ha
   have hn : normIdx a.jd1.length (k : Int) = some k := by
     simp [normIdx]; omega
@@ -284,15 +319,15 @@ theorem getIntStep_good {h : Heap} (hh : HInv h) (t : Nat) (a : Arr) (ha : h[t]?
 
 /-- iteration yields exactly the epochs in order, each one aligned, and does not disturb the array -/
 theorem iter_is_elements {h : Heap} (hh : HInv h) (t : Nat) (a : Arr) (ha : h[t]? = some a) (hs : a.scalar = false) :
-    (step true h (.iter t)).2 = .many ((List.range a.jd1.length).map
-      (fun k => ⟨pick a.jd1 [k], pick a.jd1 [k], pick a.jd2 [k], true⟩)) := by
+    (step true h (.iter t)).out = .many ((List.range a.jd1.length).map
+      (fun k => ⟨pick a.jd1 [k], pick a.jd1 [k], pick a.jd2 [k], true, a.cls, a.fmt⟩)) := by
   have key : ∀ (ks : List Nat) (extra : Heap) (acc : List Obs), (∀ k ∈ ks, k < a.jd1.length) → HInv (h ++ extra) →
       (ks.foldl
         (fun (acc : Heap × List Obs) (k : Nat) =>
           match getIntStep true acc.1 t (k : Int) with
           | (h', some r) => (h' ++ [r], acc.2 ++ [r.obs])
           | (h', none) => (h', acc.2))
-        (h ++ extra, acc)).2 = acc ++ ks.map (fun k => ⟨pick a.jd1 [k], pick a.jd1 [k], pick a.jd2 [k], true⟩) := by
+        (h ++ extra, acc)).2 = acc ++ ks.map (fun k => ⟨pick a.jd1 [k], pick a.jd1 [k], pick a.jd2 [k], true, a.cls, a.fmt⟩) := by
     intro ks
     induction ks with
     | nil => intro extra acc _ _; simp
@@ -304,11 +339,11 @@ theorem iter_is_elements {h : Heap} (hh : HInv h) (t : Nat) (a : Arr) (ha : h[t]
         rw [List.getElem?_append_left hlt]; exact ha
       have hstep := getIntStep_good hinv t a ha' hs k (hks k List.mem_cons_self)
       simp only [List.foldl_cons, hstep, List.map_cons]
-      have hgood : Good { vals := pick a.jd1 [k], jd1 := pick a.jd1 [k], jd2 := pick a.jd2 [k], scalar := true } := by
+      have hgood : Good { vals := pick a.jd1 [k], jd1 := pick a.jd1 [k], jd2 := pick a.jd2 [k], scalar := true, cls := a.cls, fmt := a.fmt } := by
         obtain ⟨_, _, hj⟩ := good_of_getElem? hinv ha'
         exact ⟨rfl, rfl, by simp [hj]⟩
-      have := ih (extra ++ [{ vals := pick a.jd1 [k], jd1 := pick a.jd1 [k], jd2 := pick a.jd2 [k], scalar := true }])
-        (acc ++ [Arr.obs { vals := pick a.jd1 [k], jd1 := pick a.jd1 [k], jd2 := pick a.jd2 [k], scalar := true }])
+      have := ih (extra ++ [{ vals := pick a.jd1 [k], jd1 := pick a.jd1 [k], jd2 := pick a.jd2 [k], scalar := true, cls := a.cls, fmt := a.fmt }])
+        (acc ++ [Arr.obs { vals := pick a.jd1 [k], jd1 := pick a.jd1 [k], jd2 := pick a.jd2 [k], scalar := true, cls := a.cls, fmt := a.fmt }])
         (fun k' hk' => hks k' (List.mem_cons_of_mem _ hk'))
         (by rw [← List.append_assoc]; exact hinv_append hinv hgood)
       rw [← List.append_assoc] at this
@@ -325,16 +360,17 @@ theorem iter_is_elements {h : Heap} (hh : HInv h) (t : Nat) (a : Arr) (ha : h[t]
 like (`obs`) — not of any left-over side channel, nor of other arrays in the heap. -/
 theorem history_independent {h h' : Heap} (hh : HInv h) (hh' : HInv h') (op : Op)
     (hsame : ∀ t : Nat, (h[t]?).map Arr.obs = (h'[t]?).map Arr.obs) (hnoiter : ∀ t, op ≠ .iter t) :
-    (step true h op).2 = (step true h' op).2 := by
+    (step true h op).out = (step true h' op).out := by
   have key : ∀ (t : Nat) (a a' : Arr), h[t]? = some a → h'[t]? = some a' →
-      a.vals = a'.vals ∧ a.jd1 = a'.jd1 ∧ a.jd2 = a'.jd2 ∧ a.scalar = a'.scalar ∧ a.pending = a'.pending := by
+      a.vals = a'.vals ∧ a.jd1 = a'.jd1 ∧ a.jd2 = a'.jd2 ∧ a.scalar = a'.scalar ∧ a.cls = a'.cls ∧ a.fmt = a'.fmt
+        ∧ a.pending = a'.pending := by
     intro t a a' e e'
     have := hsame t
     rw [e, e'] at this
     simp only [Option.map_some, Option.some.injEq, Arr.obs, Obs.mk.injEq] at this
     obtain ⟨p, _, _⟩ := good_of_getElem? hh e
     obtain ⟨p', _, _⟩ := good_of_getElem? hh' e'
-    exact ⟨this.1, this.2.1, this.2.2.1, this.2.2.2, by rw [p, p']⟩
+    exact ⟨this.1, this.2.1, this.2.2.1, this.2.2.2.1, this.2.2.2.2.1, this.2.2.2.2.2, by rw [p, p']⟩
   have none_iff : ∀ t : Nat, h[t]? = none ↔ h'[t]? = none := by
     intro t
     have := hsame t
@@ -343,8 +379,16 @@ theorem history_independent {h h' : Heap} (hh : HInv h) (hh' : HInv h') (op : Op
     · intro e; rw [e] at this; simpa using this
   have arr_eq : ∀ (t : Nat) (a a' : Arr), h[t]? = some a → h'[t]? = some a' → a = a' := by
     intro t a a' e e'
-    obtain ⟨k1, k2, k3, k4, k5⟩ := key t a a' e e'
+    obtain ⟨k1, k2, k3, k4, k5, k6, k7⟩ := key t a a' e e'
     cases a; cases a'; simp_all
+  have hget : ∀ t : Nat, h[t]? = h'[t]? := by
+    intro t
+    cases e : h[t]? with
+    | none => rw [(none_iff t).mp e]
+    | some a =>
+      cases e' : h'[t]? with
+      | none => rw [(none_iff t).mpr e'] at e; cases e
+      | some a' => rw [arr_eq t a a' e e']
   cases op with
   | iter t => exact absurd rfl (hnoiter t)
   | set t => rfl
@@ -388,14 +432,15 @@ theorem history_independent {h h' : Heap} (hh : HInv h) (hh' : HInv h') (op : Op
       cases e' : h'[t]? with
       | none => rw [(none_iff t).mpr e'] at e; cases e
       | some a' => have := arr_eq t a a' e e'; subst this; rfl
-  | scale t =>
-    simp only [step]
-    cases e : h[t]? with
-    | none => rw [(none_iff t).mp e]
-    | some a =>
-      cases e' : h'[t]? with
-      | none => rw [(none_iff t).mpr e'] at e; cases e
-      | some a' => have := arr_eq t a a' e e'; subst this; rfl
+  | scale t target => simp only [step, hget t]; cases h'[t]? <;> simp only <;> (try split_ifs) <;> rfl
+  | getBad t f => simp only [step, hget t]; cases h'[t]? <;> simp only <;> split_ifs <;> try rfl
+                  split <;> rfl
+  | same t => simp only [step, hget t]; cases h'[t]? <;> rfl
+  | refused t f => simp only [step, hget t]; cases h'[t]? <;> rfl
+  | concat ts ap =>
+    have : (fun x : Nat => h[x]?) = (fun x : Nat => h'[x]?) := funext hget
+    simp only [step, this]
+    cases ts.mapM (fun x : Nat => h'[x]?) <;> rfl
   | subset t s =>
     simp only [step]
     cases e : h[t]? with
@@ -431,30 +476,313 @@ theorem history_independent {h h' : Heap} (hh : HInv h) (hh' : HInv h') (op : Op
 /-! ### Immutability and hash consistency -/
 
 /-- assignments are refused and change nothing -/
-theorem set_rejected (clear : Bool) (h : Heap) (t : Nat) : step clear h (.set t) = (h, .error) := rfl
+theorem set_rejected (clear : Bool) (h : Heap) (t : Nat) : step clear h (.set t) = ⟨h, .error, []⟩ := rfl
 
 /-- equality of time arrays is equality of both jd lists, and the hash is a function of exactly
 those two lists: equal arrays have equal hashes (for any hash function of the two lists) -/
 theorem hash_eq {β} (H : List Nat → List Nat → β) (a b : Arr) (h : a.jd1 = b.jd1 ∧ a.jd2 = b.jd2) :
     H a.jd1 a.jd2 = H b.jd1 b.jd2 := by rw [h.1, h.2]
 
+/-! ### Frame: no operation ever touches an array that exists (with the repaired mechanism) -/
+
+/-- writing the side channel and clearing it again gives back the array -/
+theorem set_back {h : Heap} (hh : HInv h) (t : Nat) (a : Arr) (ha : h[t]? = some a) (p : List Nat × List Nat) :
+    setAt h t (afterGet true { a with pending := some p }) = h := by
+  obtain ⟨hp, _, _⟩ := good_of_getElem? hh ha
+  have hsame : afterGet true { a with pending := some p } = a := by
+    cases a; simp only [afterGet, if_true] at hp ⊢; simp_all
+  rw [hsame]; exact set_self h t a ha
+
+theorem getIntStep_heap {h : Heap} (hh : HInv h) (t : Nat) (i : Int) : (getIntStep true h t i).1 = h := by
+  unfold getIntStep
+  cases ha : h[t]? with
+  | none => rfl
+  | some a =>
+    simp only
+    split_ifs
+    · rfl
+    · cases normIdx a.jd1.length i with
+      | none => rfl
+      | some k => exact set_back hh t a ha _
+
+theorem iter_extends {h : Heap} (hh : HInv h) (t : Nat) (ks : List Nat) (acc : List Obs) :
+    ∃ new, (ks.foldl
+      (fun (acc : Heap × List Obs) (k : Nat) =>
+        match getIntStep true acc.1 t (k : Int) with
+        | (h', some r) => (h' ++ [r], acc.2 ++ [r.obs])
+        | (h', none) => (h', acc.2))
+      (h, acc)).1 = h ++ new := by
+  induction ks generalizing h acc with
+  | nil => exact ⟨[], (List.append_nil _).symm⟩
+  | cons k ks ih =>
+    simp only [List.foldl_cons]
+    have h1 := getIntStep_heap hh t (k : Int)
+    have h2 := (getInt_good hh t (k : Int)).2
+    cases hr : getIntStep true h t (k : Int) with
+    | mk h' r =>
+      rw [hr] at h1 h2
+      simp only at h1; subst h1
+      cases r with
+      | none => exact ih hh acc
+      | some r =>
+        obtain ⟨new, hn⟩ := ih (hinv_append hh (h2 r rfl)) (acc ++ [r.obs])
+        exact ⟨[r] ++ new, by simp only at hn ⊢; rw [hn, List.append_assoc]⟩
+
+/-- **Frame**: an operation only ever *adds* arrays; every array that existed is exactly what it was
+(values, jd parts, format, class, and no side channel) -/
+theorem step_extends {h : Heap} (hh : HInv h) (op : Op) : ∃ new, (step true h op).heap = h ++ new := by
+  cases op with
+  | getInt t i =>
+    simp only [step]
+    have h1 := getIntStep_heap hh t i
+    cases hr : getIntStep true h t i with
+    | mk h' r =>
+      rw [hr] at h1; simp only at h1; subst h1
+      cases r with
+      | none => exact ⟨[], (List.append_nil _).symm⟩
+      | some r => exact ⟨[r], rfl⟩
+  | getSel t s =>
+    simp only [step]
+    cases ha : h[t]? with
+    | none => exact ⟨[], (List.append_nil _).symm⟩
+    | some a =>
+      simp only
+      split_ifs
+      · exact ⟨[], (List.append_nil _).symm⟩
+      · cases s.positions a.vals.length <;> cases s.positions a.jd1.length <;> try exact ⟨[], (List.append_nil _).symm⟩
+        simp only [set_back hh t a ha]
+        exact ⟨_, rfl⟩
+  | view t => simp only [step]; cases h[t]? <;> first | exact ⟨_, rfl⟩ | exact ⟨[], (List.append_nil _).symm⟩
+  | copy t => simp only [step]; cases h[t]? <;> first | exact ⟨_, rfl⟩ | exact ⟨[], (List.append_nil _).symm⟩
+  | same t => simp only [step]; cases h[t]? <;> first | exact ⟨_, rfl⟩ | exact ⟨[], (List.append_nil _).symm⟩
+  | refused t f => simp only [step]; cases h[t]? <;> exact ⟨[], (List.append_nil _).symm⟩
+  | set t => exact ⟨[], (List.append_nil _).symm⟩
+  | concat ts ap => simp only [step]; cases ts.mapM (h[·]?) <;> exact ⟨[], (List.append_nil _).symm⟩
+  | scale t target =>
+    simp only [step]
+    cases h[t]? with
+    | none => exact ⟨[], (List.append_nil _).symm⟩
+    | some a => simp only; split_ifs <;> exact ⟨_, rfl⟩
+  | subset t s =>
+    simp only [step]
+    cases h[t]? with
+    | none => exact ⟨[], (List.append_nil _).symm⟩
+    | some a =>
+      simp only
+      split_ifs
+      · exact ⟨[], (List.append_nil _).symm⟩
+      · cases s.positions a.vals.length <;> cases s.positions a.jd1.length <;> first | exact ⟨_, rfl⟩ | exact ⟨[], (List.append_nil _).symm⟩
+  | insert ta pos tb =>
+    simp only [step]
+    cases h[ta]? <;> cases h[tb]? <;> try exact ⟨[], (List.append_nil _).symm⟩
+    simp only
+    split_ifs
+    · exact ⟨[], (List.append_nil _).symm⟩
+    · split <;> first | exact ⟨_, rfl⟩ | exact ⟨[], (List.append_nil _).symm⟩
+  | iter t =>
+    simp only [step]
+    cases ha : h[t]? with
+    | none => exact ⟨[], (List.append_nil _).symm⟩
+    | some a =>
+      simp only
+      split_ifs
+      · exact ⟨[], (List.append_nil _).symm⟩
+      · exact iter_extends hh t _ []
+  | getBad t f =>
+    simp only [step]
+    cases ha : h[t]? with
+    | none => exact ⟨[], (List.append_nil _).symm⟩
+    | some a =>
+      simp only
+      split_ifs
+      · exact ⟨[], (List.append_nil _).symm⟩
+      · cases f.positions a.jd1.length with
+        | none => exact ⟨[], (List.append_nil _).symm⟩
+        | some pj => simp only [set_back hh t a ha]; exact ⟨[], (List.append_nil _).symm⟩
+
+theorem run_extends {h : Heap} (hh : HInv h) (ops : List Op) : ∃ new, (run true h ops).heap = h ++ new := by
+  induction ops generalizing h with
+  | nil => exact ⟨[], (List.append_nil _).symm⟩
+  | cons op ops ih =>
+    obtain ⟨n1, h1⟩ := step_extends hh op
+    obtain ⟨n2, h2⟩ := ih (inv_step hh op).1
+    simp only [run]
+    exact ⟨n1 ++ n2, by rw [h2, h1, List.append_assoc]⟩
+
+/-- an index NumPy refuses after `__getitem__` has sliced the jd parts leaves *nothing* behind: the heap is what
+it was (this is what the `finally` is for) -/
+theorem getBad_no_trace {h : Heap} (hh : HInv h) (t : Nat) (f : First) :
+    (step true h (.getBad t f)).heap = h ∧ (step true h (.getBad t f)).out = .error := by
+  simp only [step]
+  cases ha : h[t]? with
+  | none => exact ⟨rfl, rfl⟩
+  | some a =>
+    simp only
+    split_ifs
+    · exact ⟨rfl, rfl⟩
+    · cases f.positions a.jd1.length with
+      | none => exact ⟨rfl, rfl⟩
+      | some pj => simp only [set_back hh t a ha]; exact ⟨trivial, trivial⟩
+
+/-- **An array is never modified by anything done later**: whatever is read, sliced, converted or refused
+afterwards, the array at heap position `t` is the array it was -/
+theorem array_stable_under_reads {h : Heap} (hh : HInv h) (ops : List Op) (t : Nat) (a : Arr) (ha : h[t]? = some a) :
+    (run true h ops).heap[t]? = some a := by
+  obtain ⟨new, hn⟩ := run_extends hh ops
+  have hlt : t < h.length := by
+    by_contra hc; rw [List.getElem?_eq_none (by omega)] at ha; cases ha
+  rw [hn, List.getElem?_append_left hlt]; exact ha
+
+/-- … in particular its hash (whatever attributes `__hash__` reads) does not change -/
+theorem hash_stable_under_reads {β} (H : List AttrVal → β) (reads : List String) {h : Heap} (hh : HInv h)
+    (ops : List Op) (t : Nat) (a : Arr) (ha : h[t]? = some a) :
+    ((run true h ops).heap[t]?).map (fun x => H (hashKey reads x)) = some (H (hashKey reads a)) := by
+  rw [array_stable_under_reads hh ops t a ha]; rfl
+
+/-! ### `__eq__` and `__hash__` as the source has them -/
+
+open Midgard.Generated.TimeArrayMech in
+/-- everything `__hash__` reads is something `__eq__` demands to be equal (attribute lists regenerated from the AST) -/
+theorem hash_reads_subset : ∀ x ∈ hashReads, x ∈ eqCompares := by decide
+
+open Midgard.Generated.TimeArrayMech in
+/-- `__hash__` is an expression of the attributes it reads and of nothing else (no memo, no global) -/
+theorem hash_is_pure : hashPure = true := by decide
+
+open Midgard.Generated.TimeArrayMech in
+/-- arrays of different scale classes are never equal (`isinstance(other, self.__class__)`): the conversion
+caches keyed through `__eq__` cannot confuse scales -/
+theorem eq_compares_class : "__class__" ∈ eqCompares := by decide
+
+theorem hashKey_eq_of_pyEq (sg cmp reads : List String) (hsub : ∀ x ∈ reads, x ∈ cmp) (a b : Arr)
+    (h : pyEq sg cmp a b = true) : hashKey reads a = hashKey reads b := by
+  simp only [pyEq, Bool.and_eq_true, List.all_eq_true, beq_iff_eq] at h
+  unfold hashKey
+  apply List.map_congr_left
+  intro x hx
+  exact h.2 x (hsub x hx)
+
+open Midgard.Generated.TimeArrayMech in
+/-- **Equal arrays have equal hashes**, for `__eq__` and `__hash__` as they are in the source and any hash function
+of what `__hash__` reads -/
+theorem eq_imp_hash_eq {β} (H : List AttrVal → β) (a b : Arr) (h : pyEq eqShapeGuard eqCompares a b = true) :
+    H (hashKey hashReads a) = H (hashKey hashReads b) := by
+  rw [hashKey_eq_of_pyEq eqShapeGuard eqCompares hashReads hash_reads_subset a b h]
+
+open Midgard.Generated.TimeArrayMech in
+/-- what `==` means in the source: same scale class, same shape, same jd parts — not the format, not the stored
+values -/
+theorem pyEq_iff (a b : Arr) : pyEq eqShapeGuard eqCompares a b = true ↔
+    a.cls = b.cls ∧ a.scalar = b.scalar ∧ a.jd1 = b.jd1 ∧ a.jd2 = b.jd2 := by
+  simp only [pyEq, eqShapeGuard, eqCompares, List.all_cons, List.all_nil, Arr.attr, Arr.shapeOf, Bool.and_true,
+    Bool.and_eq_true, beq_iff_eq]
+  simp only [String.reduceEq, if_true, if_false, or_false, AttrVal.nums.injEq, AttrVal.id.injEq,
+    AttrVal.shape.injEq]
+  constructor
+  · rintro ⟨⟨h1, _⟩, h2, ⟨_, h3⟩, ⟨_, h4⟩⟩; exact ⟨h2, h1, h3, h4⟩
+  · rintro ⟨h2, h1, h3, h4⟩; exact ⟨⟨h1, by rw [h3]⟩, h2, ⟨h2, h3⟩, ⟨h2, h4⟩⟩
+
+/-! ### Different derivation paths to the same epochs give equal arrays -/
+
+/-- `t[sel]` spelled out: the heap gains exactly the selected array -/
+theorem getSel_step {h : Heap} (hh : HInv h) (t : Nat) (s : Sel) (a : Arr) (ha : h[t]? = some a)
+    (hs : a.scalar = false) (ps : List Nat) (hps : s.positions a.vals.length = some ps) :
+    (step true h (.getSel t s)).heap =
+      h ++ [({ vals := pick a.vals ps, jd1 := pick a.jd1 ps, jd2 := pick a.jd2 ps, cls := a.cls, fmt := a.fmt } : Arr)] := by
+  obtain ⟨hp, hv, hj⟩ := good_of_getElem? hh ha
+  have hps' : s.positions a.jd1.length = some ps := by rw [← hv]; exact hps
+  have hback := set_back hh t a ha (pick a.jd1 ps, pick a.jd2 ps)
+  simp only [step, ha, hps, hps', finalize, hback]
+  simp [hs]
+
+/-- **Selecting twice = selecting once.**  `t[s1][s2]` (slice of slice, mask of slice, …) is the very array
+`t[[…]]` with the composed integer list gives — values, jd parts, class and format — so the two are `==` and hash alike. -/
+theorem sel_of_sel_eq_direct {h : Heap} (hh : HInv h) (t : Nat) (s1 s2 : Sel) (a : Arr) (ha : h[t]? = some a)
+    (hs : a.scalar = false) (ps qs : List Nat) (hps : s1.positions a.vals.length = some ps)
+    (hqs : s2.positions ps.length = some qs) :
+    ∃ r1 r, (run true h [.getSel t s1, .getSel h.length s2]).heap = h ++ [r1, r] ∧
+      (step true h (.getSel t (.idx ((pick ps qs).map Int.ofNat)))).heap = h ++ [r] := by
+  have hin := positions_lt s1 _ ps hps
+  have hqin := positions_lt s2 _ qs hqs
+  obtain ⟨hp, hv, hj⟩ := good_of_getElem? hh ha
+  have e1 := getSel_step hh t s1 a ha hs ps hps
+  have hh1 : HInv (step true h (.getSel t s1)).heap := (inv_step hh _).1
+  rw [e1] at hh1
+  have hr1 : (h ++ [({ vals := pick a.vals ps, jd1 := pick a.jd1 ps, jd2 := pick a.jd2 ps, cls := a.cls, fmt := a.fmt } : Arr)])[h.length]?
+      = some { vals := pick a.vals ps, jd1 := pick a.jd1 ps, jd2 := pick a.jd2 ps, cls := a.cls, fmt := a.fmt } := by simp
+  have e2 := getSel_step hh1 h.length s2 _ hr1 rfl qs (by simpa [pick_length a.vals ps hin] using hqs)
+  have hcomp : ∀ p ∈ pick ps qs, p < a.vals.length := by
+    intro p hp'
+    simp only [pick, List.mem_filterMap] at hp'
+    obtain ⟨q, _, hq⟩ := hp'
+    exact hin p (List.mem_of_getElem? hq)
+  have e3 := getSel_step hh t (.idx ((pick ps qs).map Int.ofNat)) a ha hs (pick ps qs) (idx_positions _ _ hcomp)
+  refine ⟨{ vals := pick a.vals ps, jd1 := pick a.jd1 ps, jd2 := pick a.jd2 ps, cls := a.cls, fmt := a.fmt }, _, ?_, e3⟩
+  simp only [run, e1, e2]
+  simp only [List.append_assoc, List.cons_append, List.nil_append]
+  rw [pick_pick a.vals ps qs hin, pick_pick a.jd1 ps qs (by rw [← hv]; exact hin), pick_pick a.jd2 ps qs (by rw [← hj, ← hv]; exact hin)]
+
+/-- a copy, a view and the object itself are `==` the array and hash alike -/
+theorem copy_view_eq {h : Heap} (hh : HInv h) (t : Nat) (a : Arr) (ha : h[t]? = some a) :
+    (step true h (.copy t)).heap = h ++ [a] ∧ (step true h (.view t)).heap = h ++ [a] ∧ (step true h (.same t)).heap = h ++ [a] := by
+  obtain ⟨hp, _, _⟩ := good_of_getElem? hh ha
+  simp only [step, ha, finalize, hp]
+  cases a; simp_all
+
+/-- converting to another scale and back gives an array `==` the original (possibly in another format: `gps_ws`
+comes back as `jd`), hence with the same hash -/
+theorem scale_round_trip_eq {h : Heap} (hh : HInv h) (t : Nat) (a : Arr) (ha : h[t]? = some a) (target : Nat)
+    (hne : target ≠ a.cls) :
+    ∃ r1 r, (run true h [.scale t target, .scale h.length a.cls]).heap = h ++ [r1, r] ∧
+      pyEq Midgard.Generated.TimeArrayMech.eqShapeGuard Midgard.Generated.TimeArrayMech.eqCompares r a = true := by
+  obtain ⟨hp, hv, hj⟩ := good_of_getElem? hh ha
+  refine ⟨{ vals := a.jd1, jd1 := a.jd1, jd2 := a.jd2, scalar := a.scalar, cls := target, fmt := fmtAfterScale a.fmt target },
+    { vals := a.jd1, jd1 := a.jd1, jd2 := a.jd2, scalar := a.scalar, cls := a.cls, fmt := fmtAfterScale (fmtAfterScale a.fmt target) a.cls }, ?_, ?_⟩
+  · simp only [run, step, ha, hne, if_false]
+    simp [Ne.symm hne]
+  · rw [pyEq_iff]; exact ⟨rfl, rfl, rfl, rfl⟩
+
 /-! ### The mechanism without the clearing is *not* aligned (the defect that was repaired) -/
 
 /-- with `clear = false` (the code before the `fix:` commit): slice, then take a view — the view
 carries 5 values but the 2 jd parts of the earlier slice -/
 theorem unrepaired_misaligns :
-    (run false [fresh 0 5] [.getSel 0 (.slice (some 1) (some 3) 1), .view 0]).2
-      = [.arr ⟨[1, 2], [1, 2], [1, 2], false⟩, .arr ⟨[0, 1, 2, 3, 4], [1, 2], [1, 2], false⟩] := by
+    (run false [fresh 0 5] [.getSel 0 (.slice (some 1) (some 3) 1), .view 0]).outs
+      = [.arr ⟨[1, 2], [1, 2], [1, 2], false, 0, 0⟩, .arr ⟨[0, 1, 2, 3, 4], [1, 2], [1, 2], false, 0, 0⟩] := by
+  decide +kernel
+
+/-- … and so is the `finally`: with `clear = false`, an index NumPy refuses after the jd parts were sliced
+(`t[2, 0]`) leaves them on `t`, and the next view carries 5 values next to the jd parts of that one epoch -/
+theorem unrepaired_refused_index_misaligns :
+    (run false [fresh 0 5] [.getBad 0 (.int 2), .view 0]).outs
+      = [.error, .arr ⟨[0, 1, 2, 3, 4], [2], [2], false, 0, 0⟩] := by
   decide +kernel
 
 /-! ### Non-vacuity -/
 
 example : (run true [fresh 0 5] [.getSel 0 (.slice (some 1) (some 3) 1), .view 0, .getInt 0 (-1),
-      .getSel 0 (.mask [true, false, true, false, true]), .getSel 0 (.slice none none (-2)), .iter 1]).2
-    = [.arr ⟨[1, 2], [1, 2], [1, 2], false⟩, .arr ⟨[0, 1, 2, 3, 4], [0, 1, 2, 3, 4], [0, 1, 2, 3, 4], false⟩,
-       .arr ⟨[4], [4], [4], true⟩, .arr ⟨[0, 2, 4], [0, 2, 4], [0, 2, 4], false⟩,
-       .arr ⟨[4, 2, 0], [4, 2, 0], [4, 2, 0], false⟩,
-       .many [⟨[1], [1], [1], true⟩, ⟨[2], [2], [2], true⟩]] := by decide +kernel
+      .getSel 0 (.mask [true, false, true, false, true]), .getSel 0 (.slice none none (-2)), .iter 1]).outs
+    = [.arr ⟨[1, 2], [1, 2], [1, 2], false, 0, 0⟩, .arr ⟨[0, 1, 2, 3, 4], [0, 1, 2, 3, 4], [0, 1, 2, 3, 4], false, 0, 0⟩,
+       .arr ⟨[4], [4], [4], true, 0, 0⟩, .arr ⟨[0, 2, 4], [0, 2, 4], [0, 2, 4], false, 0, 0⟩,
+       .arr ⟨[4, 2, 0], [4, 2, 0], [4, 2, 0], false, 0, 0⟩,
+       .many [⟨[1], [1], [1], true, 0, 0⟩, ⟨[2], [2], [2], true, 0, 0⟩]] := by decide +kernel
+
+/-- refused indices, refused NumPy functions, the object itself, plain concatenation, a scale and back: outputs and
+`__array_finalize__` calls -/
+example : (run true [fresh 0 5 0 1] [.getBad 0 (.int 2), .view 0, .getBad 0 (.sel (.slice (some 1) (some 3) 1)),
+      .refused 0 .flatten, .same 0, .concat [0, 1] true, .scale 1 1, .scale 3 0]).hooks
+    = [[], [.parent 0 false], [], [.parent 0 false], [], [.parent 1 false], [.plain], [.plain]] := by decide +kernel
+
+/-- the hypotheses of `sel_of_sel_eq_direct` are satisfiable: `t[1:][::2]` and `t[[1, 3, 5]]` are `==` and agree in
+everything `__hash__` reads -/
+example : let r := run true [fresh 0 6] [.getSel 0 (.slice (some 1) none 1), .getSel 1 (.slice none none 2), .getSel 0 (.idx [1, 3, 5])]
+    r.heap[2]? = r.heap[3]? ∧ (r.heap[2]?).map Arr.obs = some ⟨[1, 3, 5], [1, 3, 5], [1, 3, 5], false, 0, 0⟩ := by decide +kernel
+
+/-- `==` holds across formats and fails across scale classes (hypothesis of `eq_imp_hash_eq` is satisfiable, and not trivially) -/
+example : pyEq Generated.TimeArrayMech.eqShapeGuard Generated.TimeArrayMech.eqCompares
+      { vals := [7], jd1 := [1], jd2 := [1], cls := 2, fmt := 2 } { vals := [1], jd1 := [1], jd2 := [1], cls := 2, fmt := 0 } = true
+    ∧ pyEq Generated.TimeArrayMech.eqShapeGuard Generated.TimeArrayMech.eqCompares
+      { vals := [1], jd1 := [1], jd2 := [1], cls := 2 } { vals := [1], jd1 := [1], jd2 := [1], cls := 1 } = false := by decide +kernel
 
 end Midgard.Props.C04
 
@@ -479,4 +807,23 @@ end Midgard.Props.C04
 #print axioms Midgard.Props.C04.history_independent
 #print axioms Midgard.Props.C04.set_rejected
 #print axioms Midgard.Props.C04.hash_eq
+#print axioms Midgard.Props.C04.set_back
+#print axioms Midgard.Props.C04.getIntStep_heap
+#print axioms Midgard.Props.C04.iter_extends
+#print axioms Midgard.Props.C04.step_extends
+#print axioms Midgard.Props.C04.run_extends
+#print axioms Midgard.Props.C04.getBad_no_trace
+#print axioms Midgard.Props.C04.array_stable_under_reads
+#print axioms Midgard.Props.C04.hash_stable_under_reads
+#print axioms Midgard.Props.C04.hash_reads_subset
+#print axioms Midgard.Props.C04.hash_is_pure
+#print axioms Midgard.Props.C04.eq_compares_class
+#print axioms Midgard.Props.C04.hashKey_eq_of_pyEq
+#print axioms Midgard.Props.C04.eq_imp_hash_eq
+#print axioms Midgard.Props.C04.pyEq_iff
+#print axioms Midgard.Props.C04.getSel_step
+#print axioms Midgard.Props.C04.sel_of_sel_eq_direct
+#print axioms Midgard.Props.C04.copy_view_eq
+#print axioms Midgard.Props.C04.scale_round_trip_eq
 #print axioms Midgard.Props.C04.unrepaired_misaligns
+#print axioms Midgard.Props.C04.unrepaired_refused_index_misaligns
